@@ -424,15 +424,16 @@ def run_traces(ctx, n_models, extra=()):
 # binding C: histories
 # ----------------------------------------------------------------------------
 MUTANTS = ('RefuteSize', 'RefuteFirst', 'RefuteWindowTwin', 'RefuteLatched',
-           'RefuteKDrops', 'RefuteXDrops', 'RefuteKNoop', 'RefuteXNoop')
+           'RefuteKDrops', 'RefuteXDrops', 'RefuteKNoop', 'RefuteXNoop', 'RefuteKStale')
 
 
 def check_history_design(ctx):
     """KTableHistory, one TLC run (-continue): the invariants hold without a memo and with a memo keyed on the
     requested points / on their end points; every under-keyed memo and the latched opacity mode are refuted by
     the window alphabet; a family whose container drops the interpolation scheme it is constructed with, or ignores
-    the scheme set in place, is refuted by the configuration alphabet and is invisible on temperature nodes / on the
-    other routes (NodeBlind, RouteBlind hold).  Exactly the eight Refute* invariants must be violated."""
+    the scheme set in place, or whose loaded tables are not reached by the session-wide call, is refuted by the
+    configuration alphabet and is invisible on temperature nodes / on the other routes (NodeBlind, RouteBlind hold).
+    Exactly the nine Refute* invariants must be violated."""
     res = run_tlc('MC_KTableHistory', 'MC_KTableHistory_all.cfg', workers=4, coverage=True, allow_violation=True,
                   extra=['-continue'])
     ctx.add_tlc('history-design', res)
